@@ -70,6 +70,7 @@ def C3.kept (a : C3) (c : Cmd) : C3 where
 def tfc (c : Cmd) (a : F3) (ok : Bool) : Option C3 :=
   let k := a.c.kept c
   match c with
+  | .nop _ => if ok then some k else none          -- `true`, `cd`, assignments … never fail
   | .flockNB => if !ok && a.c.lockFree then none else some k
   | .uptodateCheck => some (if ok then { k with newestF := a.c.notStale } else k)
   | .rmrfNext => some { k with nextNone := true, notStale := true }
@@ -83,7 +84,7 @@ def tfc (c : Cmd) (a : F3) (ok : Bool) : Option C3 :=
     if a.c.quietF && a.c.headR && a.n.sOk && a.n.hEqR && a.n.polGt then
       (if ok then some { k with quietF := true, hGood := a.c.hGood } else none)
     else some k
-  | .saveHash => some (if ok then { k with hashHead := true } else k)
+  | .saveHash => if ok then some { k with hashHead := true } else if a.c.hGood then none else some k
   | .gitPullMerge =>
     if a.c.baseEq && a.c.hGood then
       (if ok then some { k with quietF := a.c.quietF, hGood := true, hashHead := a.c.hashHead, baseEq := true,
